@@ -192,6 +192,12 @@ def run(ctx: Ctx, driver: Driver):
             for seq in itertools.product(syms, repeat=d):
                 history(start, realise(start, seq))
                 ctx.nontrivial.add((start, seq))
+    # near the top of the 16-bit range: genuine advertisements with small absolute state numbers (recorded long ago) must stay stale
+    iid0 = FORMATS[sorted(FORMATS)[0]]
+    for start in (65436, 65500, 65534, 65535):
+        for old_g in (1, 2, 3, 50, 63, 64, 99, 100, 129):
+            history(start, [("G", min(start + 1, 65535), None, iid0, b"\x01"), ("G", old_g, None, iid0, b"\x02"), ("G", old_g, None, iid0, b"\x02")])
+            ctx.nontrivial.add((start, "ancient", old_g))
     # replays of accepted notifications after arbitrary other traffic, bit flips, short payloads, all formats/values
     for _ in range(ctx.budget(60, 3000)):
         start = rng.choice([0, 1, 7, 100, 65000, 65530, 65535, 70000])
@@ -220,8 +226,11 @@ def run(ctx: Ctx, driver: Driver):
                 hist.append(("B", cur + 1, iid, rng.randrange(16 * 8)))
             elif r < 0.65:
                 hist.append(("S", rng.randrange(0, 12)))
-            elif r < 0.75:
+            elif r < 0.72:
                 hist.append(("G", cur + rng.choice([100, 101, 150, 1000]), None, iid, value))
+            elif r < 0.75:
+                # an ancient genuine advertisement (small absolute state number), e.g. recorded long ago and replayed now
+                hist.append(("G", rng.randrange(1, 130), None, iid, value))
             elif r < 0.85:
                 hist.append(("G", max(cur - rng.randrange(0, 5), 0), None, iid, value))
             elif r < 0.92:
